@@ -26,6 +26,7 @@ mutual
 theorem evalMatcher_noerr : ∀ (m : Matcher) (r : Req), mCanErr m = false → ∀ st, evalMatcher m r ≠ .err st
   | .atom f vals, r, _, st => by simp [evalMatcher]
   | .err k s, r, h, st => by simp [mCanErr] at h
+  | .legacy b, r, _, st => by simp [evalMatcher]
   | .not sets, r, h, st => by
     rw [evalMatcher]; exact evalNot_noerr sets r (by simpa [mCanErr] using h) st
 theorem evalNot_noerr : ∀ (sets : List (List Matcher)) (r : Req), setsCanErr sets = false → ∀ st, evalNot sets r ≠ .err st
